@@ -42,20 +42,30 @@ def build(ex):
     workers.install(ex)
     from pyvc.contracts import InjectCfg
     from .workers import RW, W
-    import ast as _ast
-    tl = 0
-    for n in _ast.walk(ex.repo.func(RW + '._run_backend').node):
-        # the statement in which the backend waits for the server's go-ahead after reporting its identity: the parent's constructor returns
-        # only after that report, so a terminate requested by the parent cannot land earlier
-        if isinstance(n, _ast.Assign) and 'unused_sync' in _ast.unparse(n.targets[0]) and not tl:
-            tl = n.lineno
-
+    # A terminate requested by the parent cannot land before the backend has reported its identity and received the server's go-ahead (the parent's
+    # constructor returns only after that report).  The region is defined by what has HAPPENED on the path - the backend has received a message on
+    # its end of the comms pipe - not by a line number, so that it follows the handshake when it is moved into a helper.
     def region(interp, st, fr):
-        if fr.fi.name == '_run_backend':
-            return st.lineno > tl
-        return True
+        return bool(interp.ex.ghost.get('__go_ahead__'))
     remote = childrun.backend_run_contract(ex, 'L2r', 'C03', inject=InjectCfg([RW + '._run_backend', W + '.do_work', W + '.run'], budget=1, kinds=('wte',),
                                                                               region=region, split_store=True))
+    _setup0 = remote.setup
+
+    def _setup(ex_, env):
+        _setup0(ex_, env)
+        ex_.ghost['__go_ahead__'] = False
+        ac = ex_.abs_classes['Conn']
+        if not getattr(ac, '_go_ahead_wrapped', False):
+            orig = ac.methods['recv']
+
+            def recv(ex2, a, k):
+                r = orig(ex2, a, k)
+                if common.chan_tag(ex2, a[0]) == 'comms.child':
+                    ex2.ghost['__go_ahead__'] = True
+                return r
+            ac.methods['recv'] = recv
+            ac._go_ahead_wrapped = True
+    remote.setup = _setup
     return [(childrun.process_run_injected(ex, 'L2p', 'C03'), None),
             (childrun.thread_run_injected(ex, 'L2t', 'C03'), None),
             (remote, None)] + relay_lemmas(ex)
